@@ -79,7 +79,7 @@ func retsEq(o *psOutcome, want ...string) bool {
 }
 
 func ruleStep(cx *Ctx, rule string, onlyExpired bool) {
-	cx.R.Rule(rule, 20, "one-step refinement: on every path of every operation, for every abstract pre-state of the key (absent / live / expired-unswept), the returned terms and the table post-state equal the map-with-deadlines model's")
+	cx.R.Rule(rule, 6, "one-step refinement: on every path of every operation, for every abstract pre-state of the key (absent / live / expired-unswept), the returned terms and the table post-state equal the map-with-deadlines model's")
 	pc := cx.consts(rule)
 	if !pc.ok {
 		return
@@ -328,7 +328,7 @@ func ruleC03Ret(cx *Ctx)  { ruleStep(cx, "C03.ret", true) }
 // ruleC03Deadline: deadlines are moved only on entries that are live on that path (fresh nodes exempt).
 func ruleC03Deadline(cx *Ctx) {
 	const rule = "C03.deadline"
-	cx.R.Rule(rule, 4, "SetExpiresAt / CASExpiresAt on a node taken from the table happen only on paths where that node is known unexpired (a dead entry is never made visible again); nodes created on the path are exempt")
+	cx.R.Rule(rule, 1, "SetExpiresAt / CASExpiresAt on a node taken from the table happen only on paths where that node is known unexpired (a dead entry is never made visible again); nodes created on the path are exempt")
 	specs := append(append([]opSpec{}, opTable...), mechTable[0])
 	for _, spec := range specs {
 		r := cx.runOp(rule, spec)
